@@ -522,7 +522,7 @@ func cmdCheck(repo, root string, args []string) int {
 		violations++
 		rp := filepath.Join(evidenceDir(root), "replay", fmt.Sprintf("%s-standin-%d.json", prop, i))
 		writeJSON(rp, map[string]interface{}{"property": prop, "kind": "bounded stand-in for trusted contracts", "trusted_functions": standFor,
-			"failing_input": fl, "note": "found by running the real functions on the validator's inputs (validators/validators_test.go); the input is in failing_input",
+			"failing_input": fl, "validators": sortedKeys(standNames), "note": "found by running the real functions on the validator's inputs (validators/validators_test.go); the input is in failing_input",
 			"rerun": "/verif/check " + prop + " " + tier})
 		fmt.Printf("VIOLATION property=%s replay=%s bounded-stand-in failing input: %s\n", prop, rp, fl)
 	}
